@@ -259,6 +259,12 @@ pub fn evaluate(inp: &RefInput) -> Result<RefOut, RefErr> {
     };
     // per-carrier data kept for the perimeter ratios
     let zero_n = vec![V::ZERO; n];
+    let mut per_we_b_ren: BTreeMap<String, V> = BTreeMap::new();
+    let mut per_del_cgn_ren: BTreeMap<String, V> = BTreeMap::new();
+    let mut el_del_onst_ren = V::ZERO;
+    let mut el_exp_a_ren = V::ZERO;
+    let mut el_exp_pv_an = V::ZERO;
+    let mut el_onst_an = V::ZERO;
 
     for cr in &carriers {
         let p = format!("balance_cr.{cr}");
@@ -454,6 +460,14 @@ pub fn evaluate(inp: &RefInput) -> Result<RefOut, RefErr> {
         let we_a = we_del.sub(exp_a); // (2) step A
         let we_b = we_del.sub(we_exp); // (2) step B
 
+        per_we_b_ren.insert(cr.clone(), we_b.0[0]);
+        per_del_cgn_ren.insert(cr.clone(), we_del_cgn.0[0]);
+        if cr == "ELECTRICIDAD" {
+            el_del_onst_ren = we_del_onst.0[0];
+            el_exp_a_ren = exp_a.0[0];
+            el_exp_pv_an = exp_src_an.get("EL_INSITU").copied().unwrap_or(V::ZERO);
+            el_onst_an = onst_an;
+        }
         put3(&mut out, &format!("{p}.we.b"), we_b);
         put3(&mut out, &format!("{p}.we.a"), we_a);
         put3(&mut out, &format!("{p}.we.del"), we_del);
@@ -540,6 +554,32 @@ pub fn evaluate(inp: &RefInput) -> Result<RefOut, RefErr> {
         ren.div(t)
     };
     out.insert("rer".into(), rer);
+    // Perimeter ratios. They are not defined by the equations C02 lists, so C02 does not compare them;
+    // the values below mirror the library's (repaired) definition and only provide the cancellation
+    // scale that relational monitors (C04, C08-C11) need for these two fields.
+    let nearby = ["BIOMASA", "BIOMASADENSIFICADA", "RED1", "RED2", "EAMBIENTE", "TERMOSOLAR"];
+    let onsite = ["EAMBIENTE", "TERMOSOLAR"];
+    let sum_over = |sel: &dyn Fn(&str) -> bool, m: &BTreeMap<String, V>| m.iter().filter(|(c, _)| sel(c)).fold(V::ZERO, |a, (_, v)| a.add(*v));
+    let ren_nrb_cr = sum_over(&|c| nearby.contains(&c), &per_we_b_ren);
+    let ren_onst_cr = sum_over(&|c| onsite.contains(&c), &per_we_b_ren);
+    let ren_el_cgn = per_del_cgn_ren.get("ELECTRICIDAD").copied().unwrap_or(V::ZERO);
+    let exp_a_onst = if el_onst_an.v > 0.0 { el_exp_pv_an.mul(el_del_onst_ren).div(el_onst_an) } else { V::ZERO };
+    let cgn_in = sum_over(&|_| true, &per_del_cgn_ren);
+    let cgn_in_nrb = sum_over(&|c| nearby.contains(&c) || c == "ELECTRICIDAD", &per_del_cgn_ren);
+    let exp_a_cgn_nrb = if cgn_in.v > 0.0 { el_exp_a_ren.sub(exp_a_onst).mul(cgn_in_nrb).div(cgn_in) } else { V::ZERO };
+    let num_onst = ren_onst_cr.add(el_del_onst_ren).sub(exp_a_onst.scale(1.0 - k));
+    let num_nrb = ren_nrb_cr.add(el_del_onst_ren).add(ren_el_cgn).sub(exp_a_onst.add(exp_a_cgn_nrb).scale(1.0 - k));
+    let ratio = |num: V| -> V {
+        if t.v > 0.0 {
+            num.div(t)
+        } else if t.s == 0.0 {
+            V::ZERO
+        } else {
+            V { v: 0.0, s: f64::INFINITY }
+        }
+    };
+    out.insert("rer_onst".into(), ratio(num_onst));
+    out.insert("rer_nrb".into(), ratio(num_nrb));
     Ok(out)
 }
 
